@@ -106,12 +106,17 @@ class PosInterp:
                     cf = self.ev(ks[0], env)
                 except Giveup:
                     cf = None
+                decided = cf[1] if isinstance(cf, tuple) and cf and cf[0] == "boolc" else None
+                rest = ([ks[2]] if len(ks) > 2 else []) + ss[i + 1:]
+                if decided is True:
+                    return self._stmts([ks[1]] + ss[i + 1:], env, conds)
+                if decided is False:
+                    return self._stmts(rest, env, conds)
                 e1 = self._clone(env)
                 self.cond_stack.append(cf)
                 done1 = self._stmts([ks[1]] + ss[i + 1:], e1, conds + [c])
                 self.cond_stack.pop()
                 e2 = self._clone(env)
-                rest = ([ks[2]] if len(ks) > 2 else []) + ss[i + 1:]
                 self.cond_stack.append(("not", cf) if cf is not None else None)
                 self._stmts(rest, e2, conds + ["!(%s)" % c])
                 self.cond_stack.pop()
@@ -310,18 +315,57 @@ class PosInterp:
             if name in ("abort", "terminate", "__assert_fail", "_Exit", "quick_exit", "exit"):
                 raise _NoReturn()
             h = getattr(self, "methods", {}).get(name)
-            if h is not None and name not in getattr(self, "no_inline", ()) and getattr(self, "depth", 0) < 3:
-                # a single-return helper member of the iterator (position(), to_index(p)): evaluated in place
-                hk = ir.kids(ir.body(h)) if ir.body(h) else []
-                if len(hk) == 1 and hk[0].get("kind") == "ReturnStmt" and ir.ekids(hk[0]) and len(ir.params(h)) == len(ks) - 1:
+            if h is not None and name not in getattr(self, "no_inline", ()) and getattr(self, "depth", 0) < 3 and ir.body(h) is not None and len(ir.params(h)) == len(ks) - 1:
+                # a helper member of the iterator (position(), to_index(p), seek(p), shift<forward>(n)): executed in place on the same object
+                callee_node = ir.strip(ks[0])
+                target = env.get("this")
+                if callee_node.get("kind") in ("MemberExpr", "CXXDependentScopeMemberExpr") and ir.ekids(callee_node):
+                    b_ = self.ev(ir.ekids(callee_node)[0], env)
+                    if b_ == ("thisptr",):
+                        b_ = env.get("this")
+                    if isinstance(b_, tuple) and b_[0] == "obj":
+                        target = b_
+                env2 = {"this": target}
+                for p_, a_ in zip(ir.params(h), ks[1:]):
+                    env2[p_["id"]] = self.ev(a_, env)
+                # explicit non-type template arguments (shift<true>(n)) bind the helper's template parameters
+                par = self.d.parent_of(h)
+                tps = [c for c in ir.kids(par) if c.get("kind") == "NonTypeTemplateParmDecl"] if par is not None and par.get("kind") == "FunctionTemplateDecl" else []
+                m_ = re.search(r"%s\s*<([^<>()]*)>" % re.escape(str(name)), self.d.text(ks[0]) + self.d.text(n))
+                if tps and m_:
+                    for tp, a_ in zip(tps, [x.strip() for x in m_.group(1).split(",")]):
+                        if a_ in ("true", "false"):
+                            env2[tp["id"]] = ("boolc", a_ == "true")
+                        elif re.fullmatch(r"-?\d+", a_):
+                            env2[tp["id"]] = Poly.const(int(a_))
+                sub = PosInterp(self.d)
+                sub.depth = getattr(self, "depth", 0) + 1
+                sub.methods = getattr(self, "methods", {})
+                paths = sub.run(h, env2)
+                if len(paths) == 1:
+                    return paths[0][1]
+                raise Giveup("helper %s has %d paths" % (name, len(paths)))
+            # a library helper with a body (detail::iterator_advanced_copy(it, n)): executed in place, by value / by reference as declared
+            base_nm = str(name).split("::")[-1].split("<")[0]
+            if getattr(self, "depth", 0) < 3 and base_nm not in ("advance", "distance", "swap") and k == "CallExpr":
+                cands = [f for f in ir.functions(self.d, base_nm) if ir.body(f) is not None and "/xtl/" in (self.d.where(f) or "") and len(ir.params(f)) == len(ks) - 1
+                         and ir.enclosing_class(self.d, f) is None]
+                if cands:
+                    h = cands[0]
                     env2 = {"this": env.get("this")}
                     for p_, a_ in zip(ir.params(h), ks[1:]):
-                        env2[p_["id"]] = self.ev(a_, env)
-                    self.depth = getattr(self, "depth", 0) + 1
-                    try:
-                        return self.ev(ir.ekids(hk[0])[0], env2)
-                    finally:
-                        self.depth -= 1
+                        v_ = self.ev(a_, env)
+                        is_ref = "&" in ir.qtype(p_)
+                        if isinstance(v_, tuple) and v_[0] == "obj" and not is_ref:
+                            v_ = ("obj", dict(v_[1]))
+                        env2[p_["id"]] = v_
+                    sub = PosInterp(self.d)
+                    sub.depth = getattr(self, "depth", 0) + 1
+                    sub.methods = getattr(self, "methods", {})
+                    paths = sub.run(h, env2)
+                    if len(paths) == 1:
+                        return paths[0][1]
+                    raise Giveup("helper %s has %d paths" % (base_nm, len(paths)))
             args = [self.ev(a, env) for a in ks[1:]]
             return ("call", name) + tuple(args)
         if k in ("CXXConstructExpr", "CXXUnresolvedConstructExpr", "CXXTemporaryObjectExpr", "InitListExpr", "ParenListExpr"):
@@ -356,6 +400,24 @@ class PosInterp:
         raise Giveup("addition of %s and %s" % (type(a).__name__, type(b).__name__))
 
     def binop(self, op, l, r, env):
+        if op in ("+=", "-=") and getattr(self, "ops", None) and getattr(self, "depth", 0) < 3:
+            # `*this += n` inside a member: the class's own operator+= / operator-= is executed on the same object
+            lv = ir.strip(l)
+            while lv.get("kind") in ("ParenExpr", "ImplicitCastExpr") and ir.ekids(lv):
+                lv = ir.strip(ir.ekids(lv)[0])
+            h = self.ops.get("operator" + op)
+            if lv.get("kind") == "UnaryOperator" and lv.get("opcode") == "*" and ir.strip(ir.ekids(lv)[0]).get("kind") == "CXXThisExpr" and h is not None and ir.body(h) is not None \
+                    and h is not getattr(self, "current_fn", None):
+                env2 = {"this": env.get("this"), ir.params(h)[0]["id"]: self.ev(r, env)}
+                sub = PosInterp(self.d)
+                sub.depth = getattr(self, "depth", 0) + 1
+                sub.methods = getattr(self, "methods", {})
+                sub.ops = self.ops
+                sub.current_fn = h
+                paths = sub.run(h, env2)
+                if len(paths) == 1:
+                    return paths[0][1]
+                raise Giveup("operator%s has %d paths" % (op, len(paths)))
         if op in ("+=", "-=", "="):
             place = self.lval(l, env)
             rv = self.ev(r, env)
@@ -652,6 +714,8 @@ def rule_step(rep, d, classes):
                 env[ps[0]["id"]] = rhs
             it = PosInterp(d)
             it.methods = {k_: v_ for k_, v_ in defs.items() if not k_.startswith("operator") and k_ not in ("equal", "less_than")}
+            it.ops = defs
+            it.current_fn = fn
             try:
                 paths = it.run(fn, env)
             except Giveup as e:
